@@ -16,6 +16,7 @@ import (
 	"google.golang.org/protobuf/types/known/durationpb"
 	"google.golang.org/protobuf/types/known/structpb"
 	"google.golang.org/protobuf/types/known/timestamppb"
+	"google.golang.org/protobuf/types/known/typepb"
 	"google.golang.org/protobuf/types/known/wrapperspb"
 	"pgregory.net/rapid"
 
@@ -127,6 +128,17 @@ func runC16(ctx *Ctx) {
 		c.Bytes = hexs(val)
 		c.Args["resolvers"] = fmt.Sprint(rapid.IntRange(0, 7).Draw(rt, "res"))
 		return c
+	}, func(c *Case) error { return checkC16(ctx, c) })
+
+	// the source IS the destination, or holds it in a field: the packed value is
+	// the source as it was when the call was made
+	ctx.CheckRapid("alias", per(20000, 160000), func(rt *rapid.T) *Case {
+		full := string(types[rapid.IntRange(0, len(types)-1).Draw(rt, "type")].Name)
+		return &Case{Sub: "alias", Bytes: hexs(rapid.SliceOfN(rapid.Byte(), 0, 24).Draw(rt, "value")), Args: map[string]string{
+			"shape": rapid.SampledFrom([]string{"self", "option", "holder-singular", "holder-list", "holder-map", "holder-oneof"}).Draw(rt, "shape"),
+			"opts":  rapid.SampledFrom([]string{"zero", "deterministic", "allowpartial"}).Draw(rt, "opts"),
+			"url":   rapid.SampledFrom([]string{"", "/" + full, "type.googleapis.com/" + full, "/google.protobuf.Any", "/google.protobuf.Option", "/verif.wkt2.Holder", "sentinel"}).Draw(rt, "url"),
+		}}
 	}, func(c *Case) error { return checkC16(ctx, c) })
 
 	ctx.CheckRapid("failpack", per(5000, 40000), func(rt *rapid.T) *Case {
@@ -293,6 +305,73 @@ func checkC16(ctx *Ctx, c *Case) error {
 			ctx.Nontrivial("pack", full, c.arg("opts"), string(a.Value))
 		}
 		ctx.Label("pack opts=" + c.arg("opts"))
+	case "alias":
+		opts := c16opts(c.arg("opts"))
+		dst := &anypb.Any{TypeUrl: c.arg("url"), Value: unhex(c.Bytes)}
+		var src proto.Message
+		switch shape := c.arg("shape"); shape {
+		case "self":
+			src = dst
+		case "option":
+			src = &typepb.Option{Name: "o", Value: dst}
+		default:
+			ht := model.TypeByName("verif.wkt2.Holder")
+			if ht == nil {
+				ctx.Label("alias: holder type not available")
+				return nil
+			}
+			h := ht.New()
+			hm := h.ProtoReflect()
+			fds := hm.Descriptor().Fields()
+			dv := protoreflect.ValueOfMessage(dst.ProtoReflect())
+			switch shape {
+			case "holder-singular":
+				hm.Set(fds.ByName("any"), dv)
+			case "holder-list":
+				l := hm.Mutable(fds.ByName("anys")).List()
+				l.Append(dv)
+				l.Append(dv)
+			case "holder-map":
+				hm.Mutable(fds.ByName("any_by_name")).Map().Set(protoreflect.ValueOfString("k").MapKey(), dv)
+			default:
+				hm.Set(fds.ByName("one_any"), dv)
+			}
+			src = h
+		}
+		before := proto.Clone(src)
+		wantURL := "/" + string(src.ProtoReflect().Descriptor().FullName())
+		want, err := opts.Marshal(before)
+		if err != nil {
+			return fmt.Errorf("HARNESS: marshal failed: %v", err)
+		}
+		// the reference implementation on an equal but separate pair
+		refDst := &anypb.Any{TypeUrl: c.arg("url"), Value: unhex(c.Bytes)}
+		var refSrc proto.Message = proto.Clone(before)
+		if c.arg("shape") == "self" {
+			refSrc = refDst
+		}
+		if err := anypb.MarshalFrom(refDst, refSrc, opts); err != nil {
+			ctx.Label("alias: reference rejects (not asserted)")
+			return nil
+		}
+		if err := anyutil.MarshalFrom(dst, src, opts); err != nil {
+			return fmt.Errorf("anyutil.MarshalFrom(dst, src) with src %s dst (%s) failed: %v", map[bool]string{true: "being", false: "holding"}[c.arg("shape") == "self"], c.arg("shape"), err)
+		}
+		if dst.TypeUrl != wantURL {
+			return fmt.Errorf("alias %s: TypeUrl = %q, want %q", c.arg("shape"), dst.TypeUrl, wantURL)
+		}
+		got := before.ProtoReflect().New().Interface()
+		if err := proto.Unmarshal(dst.Value, got); err != nil || !proto.Equal(got, before) {
+			return fmt.Errorf("alias %s: the packed value is not the source as it was when MarshalFrom was called (err=%v): value %x, expected an encoding of %x", c.arg("shape"), err, dst.Value, want)
+		}
+		if opts.Deterministic && !bytes.Equal(dst.Value, want) {
+			return fmt.Errorf("alias %s: Value %x differs from opts.Marshal(src before the call) %x", c.arg("shape"), dst.Value, want)
+		}
+		if len(dst.Value) != len(refDst.Value) {
+			return fmt.Errorf("alias %s: Value has %d bytes, anypb.MarshalFrom on an equal pair gives %d", c.arg("shape"), len(dst.Value), len(refDst.Value))
+		}
+		ctx.Label("alias shape=" + c.arg("shape"))
+		ctx.Nontrivial("alias", c.arg("shape"), c.arg("opts"), c.arg("url"), c.Bytes)
 	case "hostile":
 		url := string(unhex(c.arg("url")))
 		a := &anypb.Any{TypeUrl: url, Value: unhex(c.Bytes)}
